@@ -55,7 +55,10 @@ def run(ctx):
         ctx.hist('budget=' + ('E' if exact else 'R'))
         ctx.count_case((a.tobytes(), dt), gen.nontrivial_record(a),
                        sample={'fn': 'cumulative intensity series', 'n': len(a), 'dt': dt, 'kind': kind, 'head': a[:6].tolist()})
-        asig = eqsig.AccSignal(a, dt)
+        asig = ctx.aged(eqsig.AccSignal, a, dt)
+        if kind in ('int', 'plateau', 'spike', 'step') and rng.random() < 0.5:
+            asig = eqsig.AccSignal(a.astype(np.int64), dt)      # integer-dtype record: the measures are those of the same float record
+            ctx.hist('record dtype=int64')
         snap = a.copy()
         fa = [fr(x) for x in a]
         fdt = fr(dt)
@@ -172,7 +175,7 @@ def cav_dp(ctx):
         ctx.hist(f'cavdp/dt={dt}')
         ctx.hist('cavdp/' + shape)
         ctx.count_case(('cavdp', a.tobytes(), dt), True, sample={'fn': 'calc_cav_dp', 'n': n, 'dt': dt, 'shape': shape} if i < 2 else None)
-        asig = eqsig.AccSignal(a, dt)
+        asig = ctx.aged(eqsig.AccSignal, a, dt)
         res = call_impl(im.calc_cav_dp, asig)
         inputs = {'a': a, 'dt': dt}
         if dt in (1.0, 0.5, 0.25, 0.125):
